@@ -90,10 +90,10 @@ def main(ck, tier, w):
                     if r.files.get('%s-0-3.csv' % f) != exp[f]:
                         probs.append('csvdump %s differs from the reference model of the chain' % f)
             elif cb == 'unspentcsvdump':
-                if set(r.files.get('unspent-0-3.csv', b'').decode().splitlines()[1:]) != ref.unspent_rows(ref.utxo_expected(chain, coin)):
+                if set(r.files.get('unspent-0-3.csv', b'').decode('utf-8', 'replace').splitlines()[1:]) != ref.unspent_rows(ref.utxo_expected(chain, coin)):
                     probs.append('unspent rows differ from the reference model')
             elif cb == 'balances':
-                if set(r.files.get('balances-0-3.csv', b'').decode().splitlines()[1:]) != ref.balances_rows(ref.utxo_expected(chain, coin)):
+                if set(r.files.get('balances-0-3.csv', b'').decode('utf-8', 'replace').splitlines()[1:]) != ref.balances_rows(ref.utxo_expected(chain, coin)):
                     probs.append('balances rows differ from the reference model')
             elif cb == 'simplestats':
                 p = c15.compare(chains.parse_stats(r.stdout), c15.expected_from_ref(chain, coin))
